@@ -307,6 +307,7 @@ inline void casePrimitives(vh::Rng &r, bool thorough) {
     for (int i = 1; i <= nops; ++i) {
         if (w.edges.empty() || w.nodes.size() < 2) break;
         int kind = (int) r.range(0, 9);
+        bool stopAfterThis = false;
         HyperedgeTreeEdge *e = w.edges[r.next() % w.edges.size()];
         HyperedgeTreeNode *n = w.nodes[r.next() % w.nodes.size()];
         HyperedgeTreeNode *m = w.nodes[r.next() % w.nodes.size()];
@@ -324,7 +325,11 @@ inline void casePrimitives(vh::Rng &r, bool thorough) {
         } else if (kind == 3 && attached) {                 // contraction sequence used by both rewrites
             HyperedgeTreeNode *tg = r.coin() ? e->ends.first : e->ends.second;
             HyperedgeTreeNode *src = e->followFrom(tg);
-            if (tg == src) { printf("hop %d nop\n", i); }
+            // a second edge between the two ends (possible after a splice made a cycle) would become a self-loop of `tg`,
+            // and a later disconnect of it reads the freed `src`: the callers only contract tree edges
+            bool parallel = false;
+            for (HyperedgeTreeEdge *q : src->edges) if (q != e && q->followFrom(src) == tg) parallel = true;
+            if (tg == src || parallel) { printf("hop %d nop\n", i); }
             else {
                 printf("hop %d contract %ld %ld %ld\n", i, w.idOf(e), w.idOf(tg), w.idOf(src));
                 fflush(stdout);
@@ -341,6 +346,10 @@ inline void casePrimitives(vh::Rng &r, bool thorough) {
             else {
                 printf("hop %d replace %ld %ld %ld\n", i, w.idOf(e), w.idOf(old), w.idOf(m));
                 fflush(stdout);
+                // replaceNode with a node that is not an end leaves `m` listing an edge that does not point to it: the
+                // call itself is compared with the model, but further primitives on that ill-formed heap would be
+                // invalid use (a later contraction frees a node that an edge still points to): the case ends here
+                if (old != e->ends.first && old != e->ends.second) stopAfterThis = true;
                 e->replaceNode(old, m);
             }
         } else if (kind == 5 && attached) {                 // edge->disconnectEdge(); delete edge
@@ -368,6 +377,7 @@ inline void casePrimitives(vh::Rng &r, bool thorough) {
             printf("hop %d nop\n", i);
         }
         dump(w, i, "all", nullptr);
+        if (stopAfterThis) break;
     }
     freeAll(w);
 }
